@@ -125,3 +125,46 @@ pub fn deviate(base: &[u64], devs: &[(usize, Dev)]) -> Vec<u64> {
     }
     t
 }
+
+/// `base` with a run of `k` consecutive stuck measurements (kind Repeat3 / SameDelta / Arith) whose
+/// first deviating probe reading is reading number `first_probe` (probe readings are 3 apart).
+pub fn with_stuck_run(base: &[u64], first_probe: usize, k: usize, kind: Dev) -> Vec<u64> {
+    let devs: Vec<(usize, Dev)> = (0..k).map(|j| (first_probe + 3 * j, kind)).collect();
+    deviate(base, &devs)
+}
+
+/// Run lengths that straddle every power of two up to `max` (any retry bound / narrow counter).
+pub fn run_lengths(max: usize) -> Vec<usize> {
+    let mut v: Vec<usize> = (1..=10).collect();
+    let mut p = 16usize;
+    while p <= max {
+        v.extend([p - 1, p, p + 1]);
+        p *= 2;
+    }
+    v
+}
+
+/// The pool value (set through the hook before the first call) for which the first `next_u64` on
+/// these readings returns `target`: the pool -> output map of one collection is GF(2)-affine, so it
+/// is extracted on the 64 basis pools and solved. None if the extracted map is singular / not affine
+/// (then C15 reports it).
+pub fn solve_pool_for_first_output(reg: &dyn Registry, readings: &[u64], rounds: u8, target: u64) -> Option<u64> {
+    use refmodels::gf2::{BitVec, Mat};
+    let f = |p: u64| -> u64 {
+        let (mut g, _) = jitter_with(reg, readings.to_vec(), Some(rounds));
+        g.jitter().unwrap().set_pool(p);
+        g.next_u64()
+    };
+    let c = f(0);
+    let col: Vec<BitVec> = (0..64).map(|i| BitVec { n: 64, w: vec![f(1u64 << i) ^ c] }).collect();
+    let m = Mat { rows: 64, cols: 64, col };
+    let x = m.solve(&BitVec { n: 64, w: vec![target ^ c] })?.w[0];
+    if f(x) == target {
+        Some(x)
+    } else {
+        None
+    }
+}
+
+/// Output values a value-keyed shortcut would single out.
+pub const SPECIAL_WORDS: [u64; 8] = [0, u64::MAX, 0x0000_0000_9E37_79B9, 0xDEAD_BEEF_0000_0000, 0x0000_0000_FFFF_FFFF, 0xFFFF_FFFF_0000_0000, 1, 0x8000_0000_0000_0000];
